@@ -290,30 +290,30 @@ open Jinns.Holds in
 /-- The decidable product statement used by `Holds.C14` is true of the code-shaped product, for
     all factors (so `Holds.C14` can only fail on an implementation trace that differs from it). -/
 theorem productRows_cartesian [BEq α] [LawfulBEq α] (a b : List (List α)) (pre : String) :
-    productRows a b (cartesian a b) pre = none := by
-  unfold productRows
+    c14ProductRows a b (cartesian a b) pre = none := by
+  unfold c14ProductRows
   have hlen := cartesian_length a b
   rw [if_neg (by simp [hlen])]
-  have hnone : (List.range (cartesian a b).length).find? (prodBad a b (cartesian a b)) = none := by
+  have hnone : (List.range (cartesian a b).length).find? (c14ProdBad a b (cartesian a b)) = none := by
     rw [List.find?_eq_none]
     intro k hk
     rw [List.mem_range, hlen] at hk
     obtain ⟨t, x, ht, hx, h⟩ := cartesian_row a b k hk
-    simp [prodBad, ht, hx, h]
+    simp [c14ProdBad, ht, hx, h]
   simp only [hnone]
 
 open Jinns.Holds in
 theorem pairedRows_paired [BEq α] [LawfulBEq α] (a b : List (List α)) (h : a.length = b.length)
-    (pre : String) : pairedRows a b (paired a b) pre = none := by
-  unfold pairedRows
+    (pre : String) : c14PairedRows a b (paired a b) pre = none := by
+  unfold c14PairedRows
   have hlen : (paired a b).length = a.length := by simp [paired, h]
   rw [if_neg (by simp [hlen, h])]
-  have hnone : (List.range (paired a b).length).find? (pairBad a b (paired a b)) = none := by
+  have hnone : (List.range (paired a b).length).find? (c14PairBad a b (paired a b)) = none := by
     rw [List.find?_eq_none]
     intro i hi
     rw [List.mem_range, hlen] at hi
     have hb : i < b.length := h ▸ hi
-    simp [pairBad, paired, List.getElem?_zipWith, List.getElem?_eq_getElem hi, List.getElem?_eq_getElem hb]
+    simp [c14PairBad, paired, List.getElem?_zipWith, List.getElem?_eq_getElem hi, List.getElem?_eq_getElem hb]
   simp only [hnone]
 
 /-! ### non-vacuity -/
